@@ -31,6 +31,7 @@ from typing import (
 
 from whatshap.vcf import VcfReader, PhasedVcfWriter, VcfError, VariantTable
 from whatshap import __version__
+from whatshap import _verif
 from whatshap.core import (
     ReadSet,
     Pedigree,
@@ -614,6 +615,27 @@ def run_whatshap(
                         superreads_list,
                     )
                     log_component_stats(overall_components, len(accessible_positions))
+
+                if _verif.enabled():  # verification hook, inert unless WHATSHAP_VERIF_TRACE is set
+                    _verif.trace_phase_instance(
+                        chromosome,
+                        family,
+                        trios,
+                        all_reads,
+                        accessible_positions,
+                        homozygous_positions,
+                        pedigree,
+                        recombination_costs,
+                        distrust_genotypes,
+                        genetic_haplotyping,
+                        max_coverage,
+                        algorithm,
+                        dp_table,
+                        superreads_list,
+                        transmission_vector,
+                        overall_components,
+                        numeric_sample_ids,
+                    )
 
                 if recombination_list_filename:
                     assert transmission_vector is not None
